@@ -544,17 +544,27 @@ func (p *Primary) sendToReplica(session *ReplicaSession, response *proto.WALStre
 		}
 	}
 
-	// Acquire lock to send to the stream
-	session.mu.Lock()
-	defer session.mu.Unlock()
-
-	// Send response through the gRPC stream
-	if err := session.Stream.Send(clonedResponse); err != nil {
-		log.Error("Error sending to replica %s: %v", session.ID, err)
-		session.Connected = false
-	} else {
-		session.LastActivity = time.Now()
+	// This runs on the write path, inside WAL.Append and under the storage
+	// lock: it must never wait for a replica. Stream.Send blocks once the
+	// replica stops reading (flow control), so the push is handed to a
+	// goroutine, and it is skipped altogether while an earlier send to this
+	// replica is still in progress. Nothing is lost by skipping: the stream's
+	// poller resends everything after the last acknowledged sequence.
+	if !session.mu.TryLock() {
+		return
 	}
+
+	go func() {
+		defer session.mu.Unlock()
+
+		// Send response through the gRPC stream
+		if err := session.Stream.Send(clonedResponse); err != nil {
+			log.Error("Error sending to replica %s: %v", session.ID, err)
+			session.Connected = false
+		} else {
+			session.LastActivity = time.Now()
+		}
+	}()
 }
 
 // sendInitialEntries sends WAL entries from the requested start sequence to a replica
@@ -787,11 +797,11 @@ func (p *Primary) getSessionIDFromContext(ctx context.Context) string {
 
 // updateSessionAck updates a session's acknowledged sequence
 func (p *Primary) updateSessionAck(sessionID string, ackSeq uint64) error {
-	p.mu.Lock()
-	defer p.mu.Unlock()
-
-	session, exists := p.sessions[sessionID]
-	if !exists {
+	// Look the session up and let go of the primary lock before waiting for
+	// the session: its mutex is held across Stream.Send, which blocks for as
+	// long as the replica does not read, and nobody else must wait for that
+	session := p.getSession(sessionID)
+	if session == nil {
 		return fmt.Errorf("session %s not found", sessionID)
 	}
 
